@@ -414,6 +414,9 @@ def check_m2f_clause(ctx, real, fm, flagstr, sign, man, exp, got, corr_item=None
     want, cls = expected_conv(fm, sign, man, exp, flush)
     ctx.count("search:m2f:" + cls)
     rp = dict(kind="m2f", fmt=fm.name, flag=flagstr, sign=sign, man=str(man), exp=str(exp), got=got, want=want, clause=cls)
+    if corr_item is None:
+        # a failing conversion is also the failing input of a broken table correspondence
+        corr_item = getattr(ctx, "_c15_items", {}).get("correspondence:Mpf.consts")
     if want is None:
         # subnormal (or rounds-to-zero above half the smallest subnormal) result: no demand from the property
         # beyond returning a float; record how often RNE is nevertheless met
@@ -498,6 +501,7 @@ def run(ctx):
     fms = {n: F(n) for n in FMTS}
     rng = ctx.rng
     corr_items = {}
+    ctx._c15_items = corr_items
 
     def corr_broken(name, detail):
         if name not in corr_items:
@@ -855,8 +859,10 @@ def run(ctx):
             bs[2] = bs[2] | 1
             bs[0] = bs[0] | 1
         kwf = rng.choice(["F", "F", "N", "I0"])
-        out, _seen = real.call(fmt, kwf, 2, 1, 2, "fma", bs)
-        m = dict(fmt=fmt, kw=kwf, mn=2, md=1, ex=2, fn="fma", args=bs, cl=("fma",), arr=False)
+        # the exact result needs up to 3p+1 bits: reachable through the multiplier alone, extra_prec alone, or both
+        mn_, md_, ex_ = rng.choice([(2, 1, 2), (0, 1, 2 * fm.p + 2), (1, 1, fm.p + 2), (5, 2, 0)])
+        out, _seen = real.call(fmt, kwf, mn_, md_, ex_, "fma", bs)
+        m = dict(fmt=fmt, kw=kwf, mn=mn_, md=md_, ex=ex_, fn="fma", args=bs, cl=("fma",), arr=False)
         ctx.case(key=("fma", fmt, tuple(bs)), nontrivial=True)
         ctx.count("call:fn=fma")
         check_call_clause(ctx, fm, m, out, None)
@@ -872,6 +878,10 @@ def check_call_clause(ctx, fm, m, im, item):
     ctx.count("search:call:" + cls)
     if want is None:
         return
+    if item is None:
+        # a failing call is also the failing input of a broken plumbing correspondence (working precision / stored flag)
+        items = getattr(ctx, "_c15_items", {})
+        item = items.get("correspondence:Mpf.wprec") or items.get("correspondence:Mpf.init")
     # exactness precondition: the function value must be exact at the working precision, otherwise the
     # mpmath evaluation itself rounds first (inherent double rounding of any finite-precision oracle)
     wp = max(1, fm.p + int(Fraction(fm.p * m["mn"], m["md"])) + m["ex"])
